@@ -523,7 +523,7 @@ impl<T: MaybeRead> Policies<T> {
                     let ghost rem_at_configuration = reader.remaining@.len();
 //@before /let end = tag\.to_end\(\);/ 2
                                 let ghost rem_at_policy_options = reader.remaining@.len();
-//@before /if let Maybe\(Some\(\(name, policy\)\)\) =/ optional
+//@before-stmt /T::read_maybe\(/ 1 optional
                                             let ghost seg_before = seg_of(old(reader).log@, reader.log@);
 //@after /let mut this = None;/
         let _: &Option<Self> = &this;      // (type of `this`, which rustc otherwise infers from the later assignment)
